@@ -96,8 +96,10 @@ def check(run, ctx):
     validated = set()
     for nm in seen_v:
         for n in ast.walk(vcls.methods[nm].node):
-            if isinstance(n, ast.Subscript) and isinstance(n.slice, ast.Constant) and n.slice.value in ("directories", "global_deny", "global_patterns", "allow", "deny"):
-                validated.add(n.slice.value)
+            key_e = n.slice if isinstance(n, ast.Subscript) else n.args[0] if isinstance(n, ast.Call) and call_name(n) == "get" and n.args else None
+            kv = repo.fold(vcls.module, key_e) if key_e is not None else None   # literal or module constant
+            if isinstance(kv, str) and kv in ("directories", "global_deny", "global_patterns", "allow", "deny"):
+                validated.add(kv)
     for k in sorted(consumed):
         if k in validated:
             run.ok(V3, f"list:{k}", "consumed by the matcher and validated")
@@ -312,6 +314,8 @@ def _keys_used(repo, prefix):
     ks = set()
     for f in repo.funcs_in(prefix):
         for n in ast.walk(f.node):
-            if isinstance(n, ast.Subscript) and isinstance(n.slice, ast.Constant) and isinstance(n.slice.value, str) and n.slice.value in ("directories", "global_deny", "global_patterns", "allow", "deny"):
-                ks.add(n.slice.value)
+            key_e = n.slice if isinstance(n, ast.Subscript) else n.args[0] if isinstance(n, ast.Call) and call_name(n) == "get" and n.args else None
+            kv = repo.fold(f.module, key_e) if key_e is not None else None
+            if isinstance(kv, str) and kv in ("directories", "global_deny", "global_patterns", "allow", "deny"):
+                ks.add(kv)
     return ks
